@@ -805,12 +805,13 @@ func phases(thorough bool) []phase {
 			phase{"identifier reuse, one packet fault among the first 8 packets of each direction", reuseK, vx.Bounds{0, 0, 0, 0, 1}, 1, 0},
 			phase{"unreliable messages, two packet faults among the first 6 packets of each direction", unrelK, vx.Bounds{0, 0, 0, 0, 2}, 2, 0})
 	} else {
+		// the fault phases first: the soft budget then cuts the (much larger) scheduling phases
 		ph = append(ph,
-			phase{"concurrent creation, two scheduling deviations among the first 200 choice points", conc, vx.Bounds{2, 2, 2, 1, 0}, 2, 200},
-			phase{"concurrent creation (<=3 tubes), three scheduling deviations among the first 40 choice points", concSmall, vx.Bounds{3, 3, 3, 1, 0}, 3, 40},
 			phase{"identifier reuse, two packet faults among the first 8 packets of each direction", reuseK, vx.Bounds{0, 0, 0, 0, 2}, 2, 0},
+			phase{"unreliable messages, three packet faults among the first 6 packets of each direction", unrelK, vx.Bounds{0, 0, 0, 0, 3}, 3, 0},
 			phase{"identifier reuse, one packet fault and one scheduling deviation", reuseK, vx.Bounds{1, 1, 1, 0, 1}, 2, 600},
-			phase{"unreliable messages, three packet faults among the first 6 packets of each direction", unrelK, vx.Bounds{0, 0, 0, 0, 3}, 3, 0})
+			phase{"concurrent creation, two scheduling deviations among the first 200 choice points", conc, vx.Bounds{2, 2, 2, 1, 0}, 2, 200},
+			phase{"concurrent creation (<=3 tubes), three scheduling deviations among the first 40 choice points", concSmall, vx.Bounds{3, 3, 3, 1, 0}, 3, 40})
 	}
 	return ph
 }
